@@ -5,6 +5,8 @@ package main
 import (
 	"fmt"
 	"go/ast"
+	"go/token"
+	"go/types"
 	"sort"
 	"strings"
 
@@ -56,9 +58,7 @@ func runC14(c *Ctx) {
 			f := pathOf(st.Addr)
 			got[f[strings.LastIndex(f, ".")+1:]] = pathOf(st.Val)
 		}
-		for f, h := range map[string]string{"LastValidators": "LastValidatorsInfoHash", "Validators": "ValidatorsInfoHash", "NextValidators": "NextValidatorsInfoHash"} {
-			c.Check("F", fnName(load)+"/"+f+" is loaded from the record named by "+h, re(rec(h)).MatchString(got[f]), load.Pos(), 1, f+" = "+clip(got[f], 220))
-		}
+		_ = rec
 		meta := `call:kai/rawdb\.ReadBlockMeta\(db, height\)`
 		for f, w := range map[string]string{"LastBlockHeight": `^` + meta + `\.Header\.Height$`, "LastBlockID": `^` + meta + `\.BlockID$`, "LastBlockTime": `^` + meta + `\.Header\.Time$`,
 			"AppHash": `^call:kai/rawdb\.ReadAppHash\(db, height\)$`, "LastHeightValidatorsChanged": `NextValidatorsInfoHash\)\)\.LastHeightChanged$`,
@@ -260,6 +260,78 @@ func runC14(c *Ctx) {
 	}
 	// ---- rawdb: one key function per kind, distinct prefixes ---------------------------------------------------
 	c.rawdbKeys()
+	c.rawdbKeyWidths()
+	validatorSetRoles(c)
+}
+
+// rawdbKeyWidths: a database key carries each numeric parameter of its key function in full width, through the schema's
+// fixed-width big-endian encoders — a key that keeps only part of an index makes two records share one key (part i and
+// part i+256 of a block). Narrowing conversions are tabled. Shared by C14 (state records) and C13 (block parts).
+func (c *Ctx) rawdbKeyWidths() {
+	allowed := map[string]int{ // function.parameter -> narrowest width its value may be converted to
+		"blockPartKey.index": 32, // encodeIndex(uint32): a block has at most MaxBlockPartsCount (1601) parts
+		"bloomBitsKey.bit":   16, // bloom bit index < 2048 (as upstream)
+	}
+	n := 0
+	for _, fn := range c.P.ModFuncs {
+		if fn.Pkg == nil || strings.TrimPrefix(fn.Pkg.Pkg.Path(), modPath+"/") != "kai/rawdb" || fn.Parent() != nil || len(fn.Blocks) == 0 {
+			continue
+		}
+		name := fn.Name()
+		if !(strings.HasSuffix(name, "Key") && name[0] >= 'a' && name[0] <= 'z') || fn.Signature.Results().Len() != 1 {
+			continue
+		}
+		c.Funcs[fnName(fn)] = true
+		for _, prm := range fn.Params {
+			bt, ok := prm.Type().Underlying().(*types.Basic)
+			if !ok || bt.Info()&types.IsInteger == 0 {
+				continue
+			}
+			n++
+			key := name + "." + nameOf(prm, prm.Name())
+			minW, encoded := 64, false
+			var visit func(v ssa.Value, depth int)
+			visit = func(v ssa.Value, depth int) {
+				if depth > 4 || v.Referrers() == nil {
+					return
+				}
+				for _, r := range *v.Referrers() {
+					switch x := r.(type) {
+					case *ssa.Convert:
+						if t, ok := x.Type().Underlying().(*types.Basic); ok && t.Info()&types.IsInteger != 0 {
+							w := 64
+							switch t.Kind() {
+							case types.Int8, types.Uint8:
+								w = 8
+							case types.Int16, types.Uint16:
+								w = 16
+							case types.Int32, types.Uint32:
+								w = 32
+							}
+							if w < minW {
+								minW = w
+							}
+						}
+						visit(x, depth+1)
+					case *ssa.Call:
+						if re(`^kai/rawdb\.(encodeBlockHeight|encodeIndex)$|^\(encoding/binary\.bigEndian\)\.PutUint(16|32|64)$`).MatchString(calleeNameNoPath(&x.Call)) {
+							encoded = true
+						}
+					case *ssa.BinOp, *ssa.Phi:
+						visit(r.(ssa.Value), depth+1)
+					}
+				}
+			}
+			visit(prm, 0)
+			want := 64
+			if w, ok := allowed[key]; ok {
+				want = w
+			}
+			c.Check("T", "kai/rawdb."+key+"/the key carries the parameter in full width through a fixed-width big-endian encoder", encoded && minW >= want, fn.Pos(), 1,
+				fmt.Sprintf("narrowest conversion %d bits (allowed %d), encoder reached: %v", minW, want, encoded))
+		}
+	}
+	c.Check("T", "kai/rawdb/numeric key parameters enumerated", n >= 12, token.NoPos, n, "")
 }
 
 // rawdbKeys: Read/Write/Delete of one record kind use one key function; key prefixes are pairwise distinct constants.
